@@ -57,7 +57,8 @@ TStim == /\ Is("stim")
 TEnd == /\ Is("end")
         /\ LET j == Judge(hist, root, cfg, R.measured /\ R.leak_sink, R.measured /\ R.leak_ops)
                rej2 == Mark(rej, j, l)
-               d2 == IF drift = 0 /\ R.measured /\ AllFinOk(hist) /\ Len(handles) >= 1 /\ Leak(h, 1) # R.leak_sink THEN l ELSE drift
+               d2 == IF drift = 0 /\ R.truncated THEN l       \* a stimulus of the generated case was not applicable to the real objects
+                     ELSE IF drift = 0 /\ R.measured /\ AllFinOk(hist) /\ Len(handles) >= 1 /\ Leak(h, 1) # R.leak_sink THEN l ELSE drift
            IN PrintT(ToJson([trace |-> R.id, rej |-> rej2, drift |-> d2, lines |-> Len(hist)]))
         /\ UNCHANGED <<h, root, cfg, hist, handles, drift, rej>>
 
